@@ -23,6 +23,7 @@ Imports only the finished models C09 / C05 (the filters that select and order in
 -/
 import CobaVerif.Model.C09
 import CobaVerif.Model.C10
+import CobaVerif.Model.C11
 
 namespace Coba.C04
 
@@ -666,5 +667,150 @@ decreasing_by simp; omega
 
 /-- `chain.from_iterable(batches)` -/
 def loadBatches (bs : List (List Item)) : List Item := bs.flatten
+
+/-! # Phase 4 -/
+
+/-! ## Filters with a FITTING WINDOW on interaction content: `Scale` and `Impute` (the functions of
+`Model/C11.lean` on the contexts) and `Noise` (a scan with the generator `CobaRandom(seed)` created
+inside `filter`).  `Scale.filter` / `Impute.filter` do `it = iter(interactions); fitting =
+list(islice(it, using))`, fit, and then transform `chain(fitting, it)`: what a row becomes depends
+on the whole window. -/
+
+inductive FitStage
+  /-- `Scale(shift, scale, target, using)` -/
+  | scale (cfg : C11.ScaleCfg)
+  /-- `Impute(stat, indicator, using)` -/
+  | impute (st : C11.Stat) (ind : Bool) (u : Option Nat)
+  /-- `Noise(context=…, seed)`: `step state row = (state', noisy row)`, started from `seed` on every call of `filter` -/
+  | noise (step : Nat → List C11.Val → Nat × List C11.Val) (seed : Nat)
+
+def mapCtxs (g : List (List C11.Val) → List (List C11.Val)) : C11.Ctxs → C11.Ctxs
+  | .dense rows => .dense (g rows)
+  | c => c
+
+def scanRows (step : Nat → List C11.Val → Nat × List C11.Val) : Nat → List (List C11.Val) → List (List C11.Val)
+  | _, [] => []
+  | s, r :: rs => (step s r).2 :: scanRows step (step s r).1 rs
+
+/-- what one call of `filter` makes of the contexts it is given (a raising Scale leaves such a pipeline unreadable) -/
+def FitStage.apply (sd : List Rat → Rat) : FitStage → C11.Ctxs → C11.Ctxs
+  | .scale sc, c => match C11.scaleFilter sd sc c with | .ok c' => c' | .error _ => c
+  | .impute st ind u, c => C11.imputeCtxs st ind u c
+  | .noise step seed, c => mapCtxs (scanRows step seed) c
+
+/-- the denotation of a chain of such stages, in closed form -/
+def fitDen (sd : List Rat → Rat) (ss : List FitStage) (c : C11.Ctxs) : C11.Ctxs := ss.foldl (fun c s => s.apply sd c) c
+
+def ctxsLen : C11.Ctxs → Nat
+  | .dense r => r.length | .sparse r => r.length | .scalar r => r.length
+
+def ctxsTake (k : Nat) : C11.Ctxs → C11.Ctxs
+  | .dense r => .dense (r.take k) | .sparse r => .sparse (r.take k) | .scalar r => .scalar (r.take k)
+
+/-- how much of its upstream the stage pulls: the window when the consumer asks for anything, then row by row -/
+def FitStage.window : FitStage → Option Nat
+  | .scale sc => sc.cfg.usingN
+  | .impute _ _ u => u
+  | .noise .. => some 0
+
+/-- a fitting-window stage inside a pipeline of identifiers: `dec`/`enc` give the contents of a sequence of
+identifiers and the identifiers of a sequence of contents (arbitrary in the theorems; the harness interns contents) -/
+def fitPure (sd : List Rat → Rat) (dec : List Item → C11.Ctxs) (enc : C11.Ctxs → List Item) (s : FitStage) (par : List Nat) : PureSt :=
+  { f := fun xs => enc (s.apply sd (dec xs)),
+    dem := fun u d => match d, s.window with
+      | .none, _ => .none
+      | _, none => .all
+      | .pull k, some n => if u.length < max k n then .all else .pull (max k n)
+      | .all, some _ => .all,
+    par := par }
+
+/-! ### The iterator the window is taken from.  `read()` of the upstream gives a NEW iterator on every
+call, so every read of the stage sees the whole upstream: `fitReadsFresh`.  `fitReadsKept` is the variant in
+which the stage keeps ONE upstream iterator alive between reads (position `pos` survives): a later read fits
+on what the earlier ones left. -/
+
+/-- how many upstream rows a session that delivers under demand `d` has pulled -/
+def fitPulled (win : Option Nat) (n : Nat) : Demand → Nat
+  | .none => 0
+  | .all => n
+  | .pull k => match win with
+    | none => n
+    | some w => min n (max k w)
+
+def demTake : Demand → C11.Ctxs → C11.Ctxs
+  | .none, c => ctxsTake 0 c
+  | .pull k, c => ctxsTake k c
+  | .all, c => c
+
+def ctxsDrop (k : Nat) : C11.Ctxs → C11.Ctxs
+  | .dense r => .dense (r.drop k) | .sparse r => .sparse (r.drop k) | .scalar r => .scalar (r.drop k)
+
+def fitReadsFresh (sd : List Rat → Rat) (s : FitStage) (c : C11.Ctxs) : List Demand → List C11.Ctxs
+  | [] => []
+  | d :: ds => demTake d (s.apply sd c) :: fitReadsFresh sd s c ds
+
+def fitReadsKept (sd : List Rat → Rat) (s : FitStage) (c : C11.Ctxs) : Nat → List Demand → List C11.Ctxs
+  | _, [] => []
+  | pos, d :: ds =>
+    let rest := ctxsDrop pos c
+    demTake d (s.apply sd rest) :: fitReadsKept sd s c (pos + fitPulled s.window (ctxsLen rest) d) ds
+
+/-! ## Aliasing, general form.  A stage sees the VALUES of the objects it is handed, in order.
+`alloc F` puts `F values` into NEW objects (whatever `F` is: a row-wise map, a function of the whole
+window such as Scale / Impute, a scan such as Noise, a selection or reordering of copies);
+`share` hands the same objects on; `pick sel` hands on some of the SAME objects (Take, Slice, Shuffle,
+Sort, Where, Reservoir, Cache replay: `sel n` = positions chosen among `n` objects); `write F` stores
+`F values` back into the objects it was handed (what a filter without its copy does). -/
+
+inductive GStage (α : Type)
+  | alloc (F : List α → List α)
+  | share
+  | pick (sel : Nat → List Nat)
+  | write (F : List α → List α)
+
+def gvals {α} (d : α) (st : List α) (as : List Nat) : List α := as.map (fun a => st.getD a d)
+
+def writeAll {α} : List α → List (Nat × α) → List α
+  | st, [] => st
+  | st, (a, v) :: avs => writeAll (st.set a v) avs
+
+def GStage.run {α} (d : α) : GStage α → List α × List Nat → List α × List Nat
+  | .alloc F, (st, as) =>
+    let vals := F (gvals d st as)
+    (st ++ vals, (List.range vals.length).map (· + st.length))
+  | .share, sa => sa
+  | .pick sel, (st, as) => (st, (sel as.length).filterMap (fun i => as[i]?))
+  | .write F, (st, as) => (writeAll st (as.zip (F (gvals d st as))), as)
+
+def grunStages {α} (d : α) : List (GStage α) → List α × List Nat → List α × List Nat
+  | [], sa => sa
+  | s :: ss, sa => grunStages d ss (s.run d sa)
+
+def GStage.writesInput {α} : GStage α → Bool
+  | .write _ => true
+  | _ => false
+
+def greadOnce {α} (d : α) (ss : List (GStage α)) (st : List α) (held : List Nat) : List α × List Nat := grunStages d ss (st, held)
+
+def gdeliver {α} (d : α) (sa : List α × List Nat) : List α := gvals d sa.1 sa.2
+
+/-- the phase-3 stages are instances -/
+def AStage.toG : AStage → GStage Nat
+  | .copyMap g => .alloc (List.map g)
+  | .share => .share
+  | .inPlace g => .write (List.map g)
+
+/-- Scale / Impute / Noise on dense contexts as aliasing stages: the new contexts are NEW objects -/
+def FitStage.toG (sd : List Rat → Rat) (s : FitStage) : GStage (List C11.Val) :=
+  .alloc (fun rows => match s.apply sd (.dense rows) with | .dense r => r | _ => rows)
+
+/-- the same computation written back into the contexts it was handed -/
+def FitStage.toGInPlace (sd : List Rat → Rat) (s : FitStage) : GStage (List C11.Val) :=
+  .write (fun rows => match s.apply sd (.dense rows) with | .dense r => r | _ => rows)
+
+/-- which of the delivered objects are objects that existed before the read (`some address`) and which are new
+(`none`): the pattern the harness compares with Python object identities -/
+def identityPattern (n0 : Nat) (out : List Nat) : List (Option Nat) := out.map (fun a => if a < n0 then some a else none)
+
 
 end Coba.C04
